@@ -37,6 +37,9 @@ func init() {
 type c09Step struct {
 	Path string `json:"path"`
 	Rec  EncRec `json:"record"`
+	NoPC bool   `json:"no_pc,omitempty"` // thru path, caller flag on, but no program counter is handed over (0): an adapter that has none
+	// thru path: the logger never chose a UTC mode and the instant is in a zone 8 h east of UTC (direct oracle only, like NoPC)
+	UTCUnset bool `json:"utc_unset,omitempty"`
 }
 
 const c09ConstLayout = "@"
@@ -81,7 +84,10 @@ func c09Logger(st c09Step, w io.Writer) *slog.Entry {
 	default:
 		l.SetColorMode(true)
 	}
-	l.SetWriter(w).SetErrorWriter(w).SetUTCMode(true)
+	l.SetWriter(w).SetErrorWriter(w)
+	if !st.UTCUnset {
+		l.SetUTCMode(true)
+	}
 	if st.Path == "api" {
 		l.SetLevel(slog.AlwaysLevel) // admits every severity
 		l.SetTimeFormat(c09ConstLayout)
@@ -123,10 +129,14 @@ func c09Fire(st c09Step, l *slog.Entry) {
 		return
 	}
 	pc := uintptr(0)
-	if rec.Cfg.Caller {
+	if rec.Cfg.Caller && !st.NoPC {
 		pc = encCaller.PC
 	}
-	l.WriteThru(nil, slog.Level(rec.Cfg.Level), fixedTime, pc, rec.Msg, attrsGo(rec.Attrs))
+	ts := fixedTime
+	if st.UTCUnset {
+		ts = fixedTime.In(time.FixedZone("E8", 8*3600))
+	}
+	l.WriteThru(nil, slog.Level(rec.Cfg.Level), ts, pc, rec.Msg, attrsGo(rec.Attrs))
 }
 
 // emit on the calling goroutine into the recording writer; returns the payloads
@@ -360,7 +370,7 @@ func c09GenStep(r *Rng) c09Step {
 			rec.Cfg.Level = 4
 		}
 	}
-	return c09Step{path, rec}
+	return c09Step{Path: path, Rec: rec}
 }
 
 func c09Corpus() []c09Step {
@@ -374,11 +384,13 @@ func c09Corpus() []c09Step {
 				if lvl == 4 {
 					cfg.Name = "svc"
 				}
-				out = append(out, c09Step{path, EncRec{cfg, "first line\nsecond line\n", attrs}})
-				out = append(out, c09Step{path, EncRec{cfg, "m", nil}})
+				out = append(out, c09Step{Path: path, Rec: EncRec{cfg, "first line\nsecond line\n", attrs}})
+				out = append(out, c09Step{Path: path, Rec: EncRec{cfg, "m", nil}})
 			}
 		}
-		out = append(out, c09Step{"thru", EncRec{EncCfg{Mode: mode, Level: 8, TagWidth: 3, MinWidth: 36}, " \n", nil}}) // blank Print
+		out = append(out, c09Step{Path: "thru", Rec: EncRec{EncCfg{Mode: mode, Level: 8, TagWidth: 3, MinWidth: 36}, " \n", nil}}) // blank Print
+		out = append(out, c09Step{Path: "thru", UTCUnset: true, Rec: EncRec{EncCfg{Mode: mode, Level: 4, TagWidth: 3, MinWidth: 36}, "no UTC mode chosen", attrs[:1]}})
+		out = append(out, c09Step{Path: "thru", NoPC: true, Rec: EncRec{EncCfg{Mode: mode, Level: 4, TagWidth: 3, MinWidth: 36, Caller: true}, "no program counter", attrs[:1]}})
 	}
 	return out
 }
@@ -438,6 +450,10 @@ func c09Probe(r *Run, probe c09Step, kind string, runeSet map[rune]bool, fields 
 		collectRunes(runeSet, string(obs))
 		c.Observed = strconv.Quote(string(obs))
 		canon, _ := json.Marshal(c)
+		if probe.NoPC || probe.UTCUnset { // what is printed for "no caller" / for another zone is not in the encoder model: direct oracle only
+			r.Count(c.SameObject, string(canon))
+			return
+		}
 		r.AddCase("("+ctor+" ("+c09Coq(probe, obs)+"))", c, c.SameObject, string(canon))
 	}
 	// (a) fresh state, twice
